@@ -20,6 +20,7 @@ type worker struct {
 	rec      *ev.Recorder
 	inflight *os.File
 	seq      int
+	markLen  int
 	lastMark atomic.Int64 // unix nanos of the last in-flight mark
 	ntMu     sync.Mutex
 	nt       map[string]struct{}
@@ -33,10 +34,16 @@ func (w *worker) known(id string) bool { return w.kf[id] }
 func (w *worker) mark(c Case, fn, t int) {
 	w.seq++
 	b, _ := json.Marshal(Inflight{Case: c, Fn: fn, T: t, Seq: w.seq})
-	b = append(b, '\n')
+	// one write, no truncate: pad with blanks up to the longest record so far
+	// (the reader trims them)
+	if len(b) > w.markLen {
+		w.markLen = (len(b)/256 + 1) * 256
+	}
+	for len(b) < w.markLen {
+		b = append(b, ' ')
+	}
 	if w.inflight != nil {
 		w.inflight.WriteAt(b, 0)
-		w.inflight.Truncate(int64(len(b)))
 	}
 	w.lastMark.Store(time.Now().UnixNano())
 }
@@ -112,7 +119,10 @@ func childMain(job Job) {
 			if c.MaxStack > 0 {
 				debug.SetMaxStack(c.MaxStack)
 			}
-			outs = append(outs, execCase(w, c))
+			t0 := time.Now()
+			o := execCase(w, c)
+			o.Secs = float64(time.Since(t0).Milliseconds()) / 1000
+			outs = append(outs, o)
 			writeResult(job, Result{Done: i == len(job.Cases)-1, Outcomes: outs})
 		}
 		if len(job.Cases) == job.FromT {
